@@ -23,6 +23,7 @@ from collections import Counter
 
 from .. import common, eqcases, eqterm
 from ..extract import eqtable
+from . import eqfam
 from ..gen import kinds
 
 THEOREMS = [
@@ -437,7 +438,9 @@ def batch_spellings(ctx):
 
 def cross_process(ctx, seed: int, n: int, pickles, per_graph, hash_seeds):
     """fresh interpreters with other hash seeds: unpickle there, rebuild there, ship back"""
-    outs = eqcases.run_children(ctx, seed, n, pickles, hash_seeds, tag="c04")
+    outs = eqcases.run_children(ctx, seed, n, pickles, hash_seeds, tag="c04", families=eqfam.FAMILIES,
+                                pickle_families=("callables",))
+    eqfam.judge_children(ctx, outs, "eq")
     ncase = ndis = 0
     for ch in outs:
         hs = ch["hash_seed"]
@@ -542,6 +545,8 @@ def run(ctx: common.Ctx):
     n_x = 400 if ctx.thorough else 40
     seeds = [1, 2, 3, 4, 12345] if ctx.thorough else [1, 7, 4242]
     cross_process(ctx, ctx.seed, min(n_x, n_graphs), pickles, per_graph, seeds)
+    eqfam.einsum_renamings(ctx, "eq")
+    eqfam.constants(ctx, "eq")
     ctx.broken = sorted(set(ctx.broken))[:40]
 
 
